@@ -9,7 +9,7 @@ CONSTANTS
   Targets <- TargetsTwo
   MaxRec = 1
   MaxFatal = 1
-  Timer = TRUE
+  Timer = "any"
   EmitMode = "none"
   Record = FALSE
   Eager = FALSE
